@@ -41,3 +41,4 @@ pub proof fn lemma_merge_identity(a: CacheControl)
 
 
 UNITS = {'c20_merge': (['C20'], merge_unit)}
+SEARCH = {'c20_merge': ['c20_merge']}
